@@ -72,7 +72,7 @@ static int stub_rcmd(char *ahost, char *addr, char *luser, char *ruser, char *cm
         return -1;
     }
     if (fd2p)
-        *fd2p = (int) r->ret + 1;
+        *fd2p = (int) r->b;
     return (int) r->ret;
 }
 
